@@ -5,7 +5,9 @@
    A trace is a concatenation of worlds.  Each world: an `init` event (configuration of the node: page size,
    TrustedHeader index, RemoveUntraceableBlocks, MaxTraceableBlocks; the first observation), then one `step`
    event per operation of the schedule executed on the MAIN node, each preceded by one `probe` event per
-   atomic batch (PutChangeSet / SeekGC commit) the operation wrote: a probe is a crash at that batch boundary
+   atomic batch (PutChangeSet / SeekGC commit) the operation wrote (a step flagged `interrupted` is an operation
+   the schedule crashes in the middle of: it is observed, but the crash event that follows rewinds the node to
+   an earlier batch prefix, so it does not move the accepted heights): a probe is a crash at that batch boundary
    - the database image of the batch prefix is materialised, opened with core.NewBlockchain, observed, fed a
    few further canonical headers / blocks and observed again - that leaves the main node alone.
 
@@ -109,7 +111,7 @@ Step ==
                  Report(l, ObsChecksC(c, e.obs) \cup ObsDriftC(c, e.obs), [op |-> "init", world |-> e.world, step |-> 0])
          [] e.event = "step" ->
               /\ UNCHANGED cfg
-              /\ IF e.ok
+              /\ IF e.ok /\ ~e.interrupted
                  THEN /\ hh' = e.obs.hh /\ bh' = e.obs.bh
                       /\ ahh' = IF e.op \in {"stop", "reopen", "crash", "reset"} THEN e.obs.hh ELSE Max2(ahh, e.obs.hh)
                       /\ abh' = IF e.op \in {"stop", "reopen", "crash", "reset"} THEN e.obs.bh ELSE Max2(abh, e.obs.bh)
